@@ -619,7 +619,7 @@ def AclOk (m : Assoc Nat Rule) : Prop := (keys m).Nodup ∧ ∀ k ∈ keys m, k 
 
 /-- what the documentation asks of one node entry (all decidable). -/
 structure NodeWF (n : NodeCfg) : Prop where
-  hostIp : (n.kind = .computer ∨ n.kind = .server) → n.ip.isSome
+  hostIp : (n.kind = .computer ∨ n.kind = .server ∨ n.kind = .printer) → n.ip.isSome
   ports : (keys n.ports).Nodup ∧ ∀ k ∈ keys n.ports, 1 ≤ k ∧ k ≤ n.numPorts.getD defaultRouterPorts
   acl : AclOk n.acl
   fwPorts : n.fwPorts = [] ∨ ((alookup "internal_port" n.fwPorts).isSome ∧ (alookup "external_port" n.fwPorts).isSome)
@@ -718,6 +718,11 @@ theorem declaredNode_fresh (n : NodeCfg) : ∀ c ∈ (declaredNode n).nics, c.wi
     · simp only [declaredNics, List.mem_map] at hc
       obtain ⟨e, _, rfl⟩ := hc
       exact ⟨rfl, rfl⟩
+  · rcases List.mem_cons.mp hc with rfl | hc
+    · exact ⟨rfl, rfl⟩
+    · simp only [declaredNics, List.mem_map] at hc
+      obtain ⟨e, _, rfl⟩ := hc
+      exact ⟨rfl, rfl⟩
   · rcases List.mem_replicate.mp hc with ⟨_, rfl⟩
     exact ⟨rfl, rfl⟩
   · simp only [declaredPorts, List.mem_map] at hc
@@ -751,7 +756,17 @@ theorem buildNode_eq_declared (n : NodeCfg) (wf : NodeWF n) : buildNode n = .ok 
   | server =>
     rw [hk] at hsoft
     simp only [hk] at hnics
-    have := wf.hostIp (Or.inr hk)
+    have := wf.hostIp (Or.inr (Or.inl hk))
+    cases hip : n.ip with
+    | none => simp [hip] at this
+    | some ip =>
+      rw [hip] at hnics
+      simp only [declaredNics] at hnics
+      simp [hk, hsoft, husers, hfold, declaredNics, hnics]
+  | printer =>
+    rw [hk] at hsoft
+    simp only [hk] at hnics
+    have := wf.hostIp (Or.inr (Or.inr hk))
     cases hip : n.ip with
     | none => simp [hip] at this
     | some ip =>
